@@ -28,6 +28,8 @@ pub enum Delivery {
 #[derive(Clone, Debug, Serialize, Deserialize)]
 pub struct C13Case {
     pub fmt: Fmt,
+    /// the instance text; in replay files an escaped string (printable ASCII as is, `\\xNN` otherwise)
+    #[serde(with = "bytes_esc")]
     pub text: Vec<u8>,
     /// what the generator intended: "well-formed" | "ill-formed:<class>" | "corrupted"
     pub intent: String,
@@ -36,6 +38,53 @@ pub struct C13Case {
 }
 
 pub struct C13;
+
+mod bytes_esc {
+    use serde::{Deserialize, Deserializer, Serializer};
+    pub fn serialize<S: Serializer>(b: &Vec<u8>, s: S) -> Result<S::Ok, S::Error> {
+        let mut out = String::with_capacity(b.len() + 16);
+        for &c in b {
+            if (0x20..0x7f).contains(&c) && c != b'\\' {
+                out.push(c as char);
+            } else {
+                out.push_str(&format!("\\x{:02x}", c));
+            }
+        }
+        s.serialize_str(&out)
+    }
+    pub fn deserialize<'de, D: Deserializer<'de>>(d: D) -> Result<Vec<u8>, D::Error> {
+        #[derive(Deserialize)]
+        #[serde(untagged)]
+        enum Either {
+            Esc(String),
+            Raw(Vec<u8>), // replay files written before the escaped form
+        }
+        match Either::deserialize(d)? {
+            Either::Raw(v) => Ok(v),
+            Either::Esc(t) => {
+                let b = t.as_bytes();
+                let mut out = Vec::with_capacity(b.len());
+                let mut i = 0;
+                while i < b.len() {
+                    if b[i] == b'\\' && i + 3 < b.len() && b[i + 1] == b'x' {
+                        let h = std::str::from_utf8(&b[i + 2..i + 4]).ok().and_then(|h| u8::from_str_radix(h, 16).ok());
+                        match h {
+                            Some(v) => {
+                                out.push(v);
+                                i += 4;
+                                continue;
+                            }
+                            None => return Err(serde::de::Error::custom("bad escape in text")),
+                        }
+                    }
+                    out.push(b[i]);
+                    i += 1;
+                }
+                Ok(out)
+            }
+        }
+    }
+}
 
 #[derive(Debug, PartialEq, Eq)]
 enum Got {
@@ -139,6 +188,71 @@ fn gen_fw(rng: &mut Rng) -> Fw {
         names.push(c);
     }
     Fw { n, atts, names }
+}
+
+/// Line lengths around the buffer sizes a reader may use internally (BufReader's 8 KiB, 16 KiB, a
+/// 64 KiB cap, 128 KiB) and well beyond.
+const LONG: [usize; 13] = [8190, 8191, 8192, 8193, 16384, 32768, 65534, 65535, 65536, 65537, 70_000, 131_072, 200_000];
+
+/// Makes ONE line of a rendered text very long without changing what it says: a long comment line
+/// (ICCMA), or blanks before / after / inside a statement. The reference parser re-validates the
+/// result, so a stretch that changed the meaning would surface as a harness error.
+fn stretch(rng: &mut Rng, fmt: Fmt, text: &[u8]) -> Vec<u8> {
+    let len = *rng.pick(&LONG);
+    let mut lines: Vec<Vec<u8>> = text.split_inclusive(|b| *b == b'\n').map(|l| l.to_vec()).collect();
+    let is_blank = |l: &Vec<u8>| l.iter().all(|b| b" \t\r\n".contains(b));
+    let content: Vec<usize> = (0..lines.len()).filter(|i| !is_blank(&lines[*i]) && lines[*i][0] != b'#').collect();
+    if fmt == Fmt::Iccma && (content.is_empty() || rng.bool()) {
+        // a comment of exactly `len` bytes, before the first blank line
+        let first_blank = (0..lines.len()).find(|i| is_blank(&lines[*i])).unwrap_or(lines.len());
+        // the last line may lack its terminator: never insert after it
+        let hi = if lines.last().map_or(false, |l| !l.ends_with(b"\n")) { first_blank.min(lines.len() - 1) } else { first_blank };
+        let at = rng.below(hi + 1);
+        let mut c = vec![b'#'];
+        let filler: &[u8] = *rng.pick(&[&b"x"[..], &b" 1 2"[..], &b"p af 3 "[..], &b"#"[..]]);
+        while c.len() < len {
+            c.push(filler[(c.len() - 1) % filler.len()]);
+        }
+        c.push(b'\n');
+        lines.insert(at, c);
+    } else if !content.is_empty() {
+        let i = content[rng.below(content.len())];
+        let pad = vec![*rng.pick(b" \t"); len];
+        let l = &mut lines[i];
+        let body_end = l.iter().rposition(|b| !b"\r\n".contains(b)).map_or(0, |p| p + 1);
+        match rng.below(3) {
+            0 => {
+                l.splice(0..0, pad);
+            }
+            1 => {
+                l.splice(body_end..body_end, pad);
+            }
+            _ => {
+                // inside: after the first blank (ICCMA, between two tokens) or after the first comma / parenthesis (Aspartix)
+                let at = match fmt {
+                    Fmt::Iccma => l.iter().position(|b| *b == b' ' || *b == b'\t'),
+                    Fmt::Apx => l.iter().position(|b| *b == b',' || *b == b'(').map(|p| p + 1),
+                };
+                match at {
+                    Some(at) if at < body_end => {
+                        l.splice(at..at, pad);
+                    }
+                    _ => {
+                        l.splice(body_end..body_end, pad);
+                    }
+                }
+            }
+        }
+    }
+    lines.concat()
+}
+
+fn show(data: &[u8]) -> String {
+    if data.len() <= 400 {
+        String::from_utf8_lossy(data).to_string()
+    } else {
+        format!("{}…[{} bytes in all]…{}", String::from_utf8_lossy(&data[..150]), data.len(), String::from_utf8_lossy(&data[data.len() - 150..]))
+    }
 }
 
 fn sp(rng: &mut Rng, p: usize) -> &'static str {
@@ -386,7 +500,14 @@ impl Property for C13 {
     fn gen(&self, run_seed: u64, _tier: Tier) -> Value {
         let mut rng = Rng::sub(run_seed, "workload");
         let fmt = if rng.bool() { Fmt::Iccma } else { Fmt::Apx };
-        let fw = gen_fw(&mut rng);
+        let mut fw = gen_fw(&mut rng);
+        // 1 in 150 texts has ONE very long line (comment, padded statement, or a very long name)
+        let long_line = rng.chance(1, 150);
+        if long_line && fmt == Fmt::Apx && fw.n > 0 && rng.chance(1, 3) {
+            let k = rng.below(fw.n);
+            let l = *rng.pick(&LONG);
+            fw.names[k] = format!("L{}", "y".repeat(l));
+        }
         let (text, intent) = match rng.weighted(&[5, 3, 3]) {
             0 => (render_wellformed(&mut rng, fmt, &fw), "well-formed".to_string()),
             1 => {
@@ -398,6 +519,7 @@ impl Property for C13 {
                 (corrupt(&mut rng, &t), "corrupted".to_string())
             }
         };
+        let text = if long_line && intent != "corrupted" { stretch(&mut rng, fmt, &text) } else { text };
         serde_json::to_value(C13Case { fmt, text, intent, plan: None, plan_seed: run_seed >> 8 }).unwrap()
     }
     fn exec(&self, case: &Value) -> RunResult {
@@ -412,7 +534,7 @@ impl Property for C13 {
                 (RefParse::IllFormed(c), i) if i.starts_with("ill-formed:") && &i[11..] == *c => {}
                 (_, "corrupted") => {}
                 (c, i) => {
-                    r.harness_error = Some(format!("reference parser says {:?} for a text generated as {:?}: {:?}", c, i, String::from_utf8_lossy(&case.text)));
+                    r.harness_error = Some(format!("reference parser says {:?} for a text generated as {:?}: {:?}", c, i, show(&case.text)));
                     return r;
                 }
             }
@@ -503,7 +625,7 @@ impl Property for C13 {
                 Got::Panic(_) => 3,
             });
             let site = |v: Violation| v.at("format", format!("{:?}", case.fmt)).at("delivery", kind).at("inject", serde_json::to_string(d).unwrap());
-            let shown = String::from_utf8_lossy(&data).to_string();
+            let shown = show(&data);
             if let Got::Panic(p) = &got {
                 r.violations.push(site(Violation::new("C13", "panic", format!("{:?} reader panicked ({}) on {:?} delivered as {:?}", case.fmt, p, shown, d))));
                 break;
@@ -595,6 +717,31 @@ impl Property for C13 {
                 _ => {}
             }
         }
+        // shorten the longest run of one byte (long lines)
+        {
+            let t = &case.text;
+            let (mut best_at, mut best_len, mut i) = (0usize, 0usize, 0usize);
+            while i < t.len() {
+                let mut j = i;
+                while j < t.len() && t[j] == t[i] {
+                    j += 1;
+                }
+                if j - i > best_len {
+                    best_at = i;
+                    best_len = j - i;
+                }
+                i = j;
+            }
+            if best_len >= 64 {
+                for cut in [best_len / 2, best_len / 4, best_len / 8, 1024, 64, 8, 1] {
+                    if cut >= 1 && cut < best_len {
+                        let mut t2 = t.clone();
+                        t2.drain(best_at..best_at + cut);
+                        out.push(C13Case { text: t2, intent: "corrupted".into(), ..case.clone() });
+                    }
+                }
+            }
+        }
         // drop lines, then bytes
         let s = case.text.clone();
         let mut starts = vec![0usize];
@@ -603,11 +750,28 @@ impl Property for C13 {
                 starts.push(i + 1);
             }
         }
-        for (k, st) in starts.iter().enumerate() {
-            let en = if k + 1 < starts.len() { starts[k + 1] } else { s.len() };
-            let mut t = s.clone();
-            t.drain(*st..en);
-            out.push(C13Case { text: t, intent: "corrupted".into(), ..case.clone() });
+        let nl = starts.len();
+        if nl > 48 {
+            // many lines: blocks of lines first (halves … 32nds)
+            for parts in [2usize, 4, 8, 16, 32] {
+                let step = nl.div_ceil(parts);
+                let mut k = 0;
+                while k < nl {
+                    let st = starts[k];
+                    let en = if k + step < nl { starts[k + step] } else { s.len() };
+                    let mut t = s.clone();
+                    t.drain(st..en);
+                    out.push(C13Case { text: t, intent: "corrupted".into(), ..case.clone() });
+                    k += step;
+                }
+            }
+        } else {
+            for (k, st) in starts.iter().enumerate() {
+                let en = if k + 1 < starts.len() { starts[k + 1] } else { s.len() };
+                let mut t = s.clone();
+                t.drain(*st..en);
+                out.push(C13Case { text: t, intent: "corrupted".into(), ..case.clone() });
+            }
         }
         if s.len() <= 60 {
             for i in 0..s.len() {
